@@ -10,7 +10,7 @@ from __future__ import annotations
 
 import importlib
 import sys
-from typing import Any, List, Optional, Sequence
+from typing import Any, Dict, List, Optional, Sequence
 
 ALL_SYSTEMS = "measured.systems"
 
@@ -26,11 +26,28 @@ def purge() -> None:
         del sys.modules[k]
 
 
+_active: Optional["World"] = None
+
+
+def _stash_active() -> None:
+    global _active
+    if _active is not None:
+        _active._mods = {k: v for k, v in sys.modules.items() if k == "measured" or k.startswith("measured.")}
+
+
 class World:
-    """A freshly imported copy of the library plus the declaration log."""
+    """A freshly imported copy of the library plus the declaration log.
+
+    Only one world is *active* (present in sys.modules) at a time; the library does a few
+    lazy ``from measured import ...`` at call time, so code of a world must only run while
+    that world is active.  ``activate()`` switches back to an older world."""
 
     def __init__(self, modules: Sequence[str] = (), intercept: bool = True):
+        global _active
+        _stash_active()
         purge()
+        _active = self
+        self._mods = {}
         self.m = importlib.import_module("measured")
         self.conversions = importlib.import_module("measured.conversions")
         self.decls: List[dict] = []  # {'kind': 'equate', 'a': Quantity, 'b': Quantity, 'seq': n}
@@ -63,6 +80,15 @@ class World:
         conv.equate = equate
         conv.translate = translate
         self._orig = (orig_equate, orig_translate)
+
+    def activate(self) -> "World":
+        global _active
+        if _active is not self:
+            _stash_active()
+            purge()
+            sys.modules.update(self._mods)
+            _active = self
+        return self
 
     def load(self, name: str) -> Any:
         full = name if name.startswith("measured") else "measured." + name
@@ -102,4 +128,4 @@ def shared_world() -> World:
     global _shared
     if _shared is None:
         _shared = World([ALL_SYSTEMS, "geometry", "physics"])
-    return _shared
+    return _shared.activate()
